@@ -351,3 +351,37 @@ func first(a, _ []byte) []byte { return a }
 //@   ensures[hdr] hdrSame((*ref).pointer, n4)
 //@   ensures[replaced] (*ref).pointer == n4 || (fresh((*ref).pointer) && Zero4(n4))
 //@   ensures[frame] frame(n4, ref.obj, (*ref).pointer) && frameSlot(ref)
+
+//@ spec slotOK(ptr) = ptr.obj != (*ptr).pointer && allocated(ptr.obj) && ptr.obj != nil
+
+//@ func (*nodeRef).addChild
+//@   requires typeOK(*ptr) && InvRef(*ptr) && slotOK(ptr)
+//@   requires lookP(*ptr, b) == nil && child.pointer != nil
+//@   ensures[view] forallp(x, 0, 256, lookP(*ptr, x) == ite(x == b, child.pointer, old(lookP(*ptr, x))) && lookT(*ptr, x) == ite(x == b, child.tag, old(lookT(*ptr, x))))
+//@   ensures[inv] typeOK(*ptr) && InvRef(*ptr)
+//@   ensures[hdr] hdrSame((*ptr).pointer, old((*ptr).pointer))
+//@   ensures[replaced] (*ptr).pointer == old((*ptr).pointer) || fresh((*ptr).pointer)
+//@   ensures[frame] frame(old((*ptr).pointer), ptr.obj, (*ptr).pointer) && frameSlot(ptr)
+
+// deleteChild: requires the byte to be present; ensures the view is the old view
+// minus b. The shrink thresholds are not part of the contracts: whatever class
+// results must satisfy its invariant and present the same table.
+
+//@ func (*node256).deleteChild
+//@   requires n256 != nil && atype(n256) == typeid(node256) && Inv256(n256) && refIs(ref, n256, 3)
+//@   requires n256.children[b].pointer != nil
+//@   ensures[view] forallp(x, 0, 256, lookP(*ref, x) == ite(x == b, nil, old(lookP256(n256, x))) && lookT(*ref, x) == ite(x == b, 0, old(lookT256(n256, x))))
+//@   ensures[inv] typeOK(*ref) && InvRef(*ref)
+//@   ensures[hdr] hdrSame((*ref).pointer, n256)
+//@   ensures[replaced] (*ref).pointer == n256 || (fresh((*ref).pointer) && Zero256(n256))
+//@   ensures[frame] frame(n256, ref.obj, (*ref).pointer) && frameSlot(ref)
+//@   loop 1 (i)
+//@     modifies SP ST B
+//@     invariant 0 <= i && i <= 256 && 0 <= pos && pos == cntP(n256.children, i) && frame(ref.obj) && frameSlot(ref)
+//@     invariant (*ref).pointer == n48 && (*ref).tag == 2
+//@     invariant cntP(n48.children, 48) == pos && cntNZ(n48.keys, 256) == pos
+//@     invariant forall(j, 0, 48, implies(j >= pos, n48.children[j].pointer == nil))
+//@     invariant forall(x, 0, 256, n48.keys[x] == ite(x < i && n256.children[x].pointer != nil, cntP(n256.children, x) + 1, 0))
+//@     invariant forall(x, 0, 256, implies(x < i && n256.children[x].pointer != nil, n48.children[cntP(n256.children, x)].pointer == n256.children[x].pointer && n48.children[cntP(n256.children, x)].tag == n256.children[x].tag))
+//@     invariant forall(j, 0, 10, n48.prefix[j] == n256.prefix[j])
+//@     decreases 256 - i
